@@ -9,6 +9,8 @@ import (
 	"go/ast"
 	"go/parser"
 	"go/token"
+	"io"
+	"io/fs"
 	"math/rand"
 	"os"
 	"path/filepath"
@@ -302,8 +304,26 @@ func observe(c *Case, r *mon.Rec, in []byte, tail []byte) {
 			a["panic"] = numRe.ReplaceAllString(r0.bpanic, "N")
 			r.Violate(c, "bytes-panics-after-parse", a, fmt.Sprintf("input (%d bytes) % x accepted as %T, Bytes(): %s", len(in), head(in), r0.v, r0.bpanic))
 		}
-		// an error a parser returns is a value its caller will print
+		// a nil slice is the empty byte string: same answer as for a slice of length 0
+		if len(in) == 0 {
+			rn := call(e, nil)
+			if d := same(r0, rn); d != "" {
+				r.Violate(c, "nil-slice-differs-from-empty", mon.Attrs{"entry": e.Name, "differs": d}, fmt.Sprintf("nil input gave %v / %s, a zero-length slice %v / %s", rn.v, errText(rn.err), r0.v, errText(r0.err)))
+			} else if !rn.panicked && rn.err == nil && (e.Kind == "req" || e.Kind == "resp") && libx.IsNilValue(rn.v) {
+				r.Violate(c, "neither-value-nor-error", mon.Attrs{"entry": e.Name}, "nil input: returned a nil value and a nil error")
+			}
+		}
+		// an error a parser returns is a value its caller will print - and test with errors.Is / errors.As
 		if r0.err != nil && !r0.panicked {
+			if p, t := mon.Catch(func() {
+				_ = errors.Is(r0.err, io.EOF)
+				_ = errors.Is(r0.err, context.DeadlineExceeded)
+				_ = errors.Is(r0.err, packet.ErrInvalidCRC)
+				var pe *fs.PathError
+				_ = errors.As(r0.err, &pe)
+			}); p {
+				r.Violate(c, "returned-error-panics", mon.Attrs{"entry": e.Name, "in": "errors.Is"}, fmt.Sprintf("input (%d bytes) % x: errors.Is / errors.As on the returned %T panics: %s", len(in), head(in), r0.err, firstLine(t)))
+			}
 			if p, t := mon.Catch(func() { _ = r0.err.Error() }); p {
 				r.Violate(c, "returned-error-panics", mon.Attrs{"entry": e.Name}, fmt.Sprintf("input (%d bytes) % x: the returned %T panics in Error(): %s", len(in), head(in), r0.err, firstLine(t)))
 			}
